@@ -26,6 +26,7 @@ MODULES = {
     'C03': 'harness.c03',
     'C04': 'harness.c04',
     'C05': 'harness.c05',
+    'C06': 'harness.c06',
 }
 
 
